@@ -116,7 +116,8 @@ def run_unit(unit, workdir, probe=False, timeout=600, rlimit=None):
         gl = prim[0]['line_start'] if prim else 0
         org = linemap[gl - 1] if 0 < gl <= len(linemap) else {}
         # the clause that failed (secondary span for ensures / requires) or the primary text
-        clause_span = (sec[0] if sec else (prim[0] if prim else None))
+        lab = [s for s in spans if s.get('label') and re.search(r'failed|not satisfied', s['label'])]
+        clause_span = (lab[0] if lab else (prim[0] if prim else None))
         clause = ''
         if clause_span and clause_span.get('text'):
             clause = clause_span['text'][0].get('text', '').strip()
